@@ -305,7 +305,7 @@ func checkCmd(opts *RunOpts, args []string) int {
 	witnessCache := map[string]bool{}
 	var unsatCore []string
 	cexCache := map[string]*Cex{}
-	var cov_order map[string]any
+	var cov_order, cov_rel map[string]any
 
 	for _, res := range run.Results {
 		if res.Trusted {
@@ -474,44 +474,32 @@ func checkCmd(opts *RunOpts, args []string) int {
 		}
 	}
 	if run.OrderRan {
-		knownSet := map[string]bool{}
-		if b, err := os.ReadFile(filepath.Join(opts.Verif, "baseline", "c05_order_known.txt")); err == nil {
-			for _, l := range strings.Split(string(b), "\n") {
-				if l = strings.TrimSpace(l); l != "" && !strings.HasPrefix(l, "#") {
-					knownSet[l] = true
-				}
-			}
-		}
-		if kf := findKnown(known, prop, "bounded.resolver.target_order"); kf == nil {
-			knownSet = map[string]bool{}
-		} else if ok, _ := runWitness(opts, kf); !ok {
-			knownSet = map[string]bool{}
-		}
-		var fresh []string
-		stillKnown := 0
-		for _, f := range run.OrderFailing {
-			key := f
-			if i := strings.Index(f, " => "); i >= 0 {
-				key = f[:i]
-			}
-			if knownSet[key] {
-				stillKnown++
-			} else {
-				fresh = append(fresh, f)
-			}
-		}
-		if stillKnown > 0 {
-			knownLines = append(knownLines, fmt.Sprintf("KNOWN-FINDING: property=%s the After comparator of SortStates is not a strict weak order: in %d of the %d acyclic 4-state schemas of the bounded family (listed one by one in baseline/c05_order_known.txt) Add{A,B,C,D} resolves a state before one it is declared After (witness TestVerifWitnessAfterOrder) [bounded.resolver.target_order]", prop, stillKnown, run.OrderTotal))
+		kl, vl, cv := boundedListVerdict(opts, prop, known, "bounded.resolver.target_order", "c05_order_known.txt", run.OrderFailing, run.OrderTotal,
+			"acyclic 4-state schemas, <=1 Require and <=1 After per state, Add{A,B,C,D}",
+			"the After comparator of SortStates is not a strict weak order: Add{A,B,C,D} resolves a state before one it is declared After",
+			"resolve a state before one it Requires / is After", nil)
+		if kl != "" {
+			knownLines = append(knownLines, kl)
 			nKnown++
 		}
-		if len(fresh) > 0 {
-			dir := filepath.Join(outRoot(opts), "replays", prop)
-			os.MkdirAll(dir, 0o755)
-			rp := filepath.Join(dir, "bounded.resolver.target_order.replay.txt")
-			os.WriteFile(rp, []byte(fmt.Sprintf("property: %s\nobligation: bounded.resolver.target_order\nkind: bounded stand-in on the real machine: all acyclic 4-state schemas with at most one Require and one After per state (%d), Add{A,B,C,D}\nfailing-inputs (schema => resolved order (violated constraint)), not among the recorded known ones:\n%s\n", prop, run.OrderTotal, strings.Join(fresh, "\n"))), 0o644)
-			violations = append(violations, fmt.Sprintf("VIOLATION property=%s replay=%s obligation=bounded.resolver.target_order %d schema(s) of the bounded family resolve a state before one it Requires / is After, e.g. %s", prop, rp, len(fresh), fresh[0]))
+		if vl != "" {
+			violations = append(violations, vl)
 		}
-		cov_order = map[string]any{"family": "acyclic 4-state schemas, <=1 Require and <=1 After per state", "schemas": run.OrderTotal, "failing_known": stillKnown, "failing_new": len(fresh), "label": "bounded"}
+		cov_order = cv
+	}
+	if run.RelRan {
+		kl, vl, cv := boundedListVerdict(opts, prop, known, "bounded.resolver.relations", "c02_bounded_known.txt", run.RelFailing, run.RelTotal,
+			fmt.Sprintf("4-state schemas with at most %d relations (Add/Remove/Require, one target each), start sets {} and {X}, single-state Add/Remove/Set", run.RelBound),
+			"a state Removed by an active state is (re-)activated through an Add relation, so both stay active",
+			"break a clause of the property (Require closure, Remove consistency, Add followed, justified changes)", c02ResurrectionClass)
+		if kl != "" {
+			knownLines = append(knownLines, kl)
+			nKnown++
+		}
+		if vl != "" {
+			violations = append(violations, vl)
+		}
+		cov_rel = cv
 	}
 	notes = append(notes, run.ExtraNotes...)
 	for _, l := range knownLines {
@@ -554,6 +542,9 @@ func checkCmd(opts *RunOpts, args []string) int {
 	}
 	if cov_order != nil {
 		cov["bounded_order_standin"] = cov_order
+	}
+	if cov_rel != nil {
+		cov["bounded_relations_standin"] = cov_rel
 	}
 	if len(run.Bounded) > 0 || run.SchemaCount > 0 {
 		cov["schemas_extracted"] = run.SchemaCount
@@ -639,4 +630,100 @@ func appendReplay(path, text string) {
 	}
 	defer f.Close()
 	f.WriteString(text)
+}
+
+// boundedListVerdict: verdict of a bounded stand-in that returns the failing
+// cases of a finite family. Cases listed in the committed baseline file (and
+// backed by a known finding whose witness still reproduces) are known; any
+// other failing case is a violation with its concrete input.
+func boundedListVerdict(opts *RunOpts, prop string, known []KnownFinding, obl, baseFile string, failing []string, total int, family, knownWhat, violWhat string, classKnown func(string) bool) (knownLine, violLine string, cov map[string]any) {
+	knownSet := map[string]bool{}
+	if b, err := os.ReadFile(filepath.Join(opts.Verif, "baseline", baseFile)); err == nil {
+		for _, l := range strings.Split(string(b), "\n") {
+			if l = strings.TrimSpace(l); l != "" && !strings.HasPrefix(l, "#") {
+				knownSet[l] = true
+			}
+		}
+	}
+	if kf := findKnown(known, prop, obl); kf == nil {
+		knownSet = map[string]bool{}
+	} else if ok, _ := runWitness(opts, kf); !ok {
+		knownSet = map[string]bool{}
+	}
+	if d := os.Getenv("GOCV_DUMP_BOUNDED"); d != "" {
+		// maintenance only (never set by a registered command): dump the failing keys
+		var keys []string
+		for _, f := range failing {
+			key := f
+			if i := strings.Index(f, " => "); i >= 0 {
+				key = f[:i]
+			}
+			keys = append(keys, key)
+		}
+		os.WriteFile(filepath.Join(d, baseFile), []byte(strings.Join(keys, "\n")+"\n"), 0o644)
+	}
+	var fresh []string
+	stillKnown := 0
+	for _, f := range failing {
+		key := f
+		if i := strings.Index(f, " => "); i >= 0 {
+			key = f[:i]
+		}
+		if knownSet[key] || (len(knownSet) > 0 && classKnown != nil && classKnown(f)) {
+			stillKnown++
+		} else {
+			fresh = append(fresh, f)
+		}
+	}
+	if stillKnown > 0 {
+		knownLine = fmt.Sprintf("KNOWN-FINDING: property=%s %s: %d of the %d cases of the bounded family (listed one by one in baseline/%s) [%s]", prop, knownWhat, stillKnown, total, baseFile, obl)
+	}
+	if len(fresh) > 0 {
+		dir := filepath.Join(outRoot(opts), "replays", prop)
+		os.MkdirAll(dir, 0o755)
+		rp := filepath.Join(dir, sanitize(obl)+".replay.txt")
+		shown := fresh
+		if len(shown) > 200 {
+			shown = shown[:200]
+		}
+		os.WriteFile(rp, []byte(fmt.Sprintf("property: %s\nobligation: %s\nkind: bounded stand-in on the real machine: %s (%d cases)\nfailing-inputs (case => outcome (violated clause)), not among the recorded known ones (%d, first %d shown):\n%s\n", prop, obl, family, total, len(fresh), len(shown), strings.Join(shown, "\n"))), 0o644)
+		violLine = fmt.Sprintf("VIOLATION property=%s replay=%s obligation=%s %d case(s) of the bounded family %s, e.g. %s", prop, rp, obl, len(fresh), violWhat, fresh[0])
+	}
+	cov = map[string]any{"family": family, "cases": total, "failing_known": stillKnown, "failing_new": len(fresh), "label": "bounded"}
+	return
+}
+
+// c02ResurrectionClass: the recorded known finding of C02 for schemas with more
+// than three relations (the cases with up to three are listed one by one): a
+// Remove-consistency failure "X and Y active, Y removes X" where X is the Add
+// target of a state that is active in the outcome (X was re-added through Add).
+func c02ResurrectionClass(f string) bool {
+	i := strings.Index(f, "(remove: ")
+	if i < 0 || !strings.HasPrefix(f, "[") {
+		return false
+	}
+	rels := strings.Fields(f[1:strings.Index(f, "]")])
+	if len(rels) <= 3 {
+		return false // listed individually
+	}
+	w := strings.Fields(f[i+len("(remove: "):])
+	if len(w) < 1 {
+		return false
+	}
+	x := w[0]
+	k := strings.Index(f, "=> {")
+	if k < 0 {
+		return false
+	}
+	after := strings.Split(f[k+4:strings.Index(f[k:], "}")+k], ",")
+	for _, r := range rels {
+		if len(r) == 3 && r[1] == '+' && string(r[2]) == x {
+			for _, a := range after {
+				if a == string(r[0]) {
+					return true
+				}
+			}
+		}
+	}
+	return false
 }
